@@ -119,13 +119,24 @@ Definition chk_c18 (i o : list Z) : bool :=
               (* device request = number of networks *)
               (if i_inject x then c =? n else true) &&
               (* zone affinity within the zones in which every requested network has a vSwitch *)
-              (if i_has_req x && negb (i_has_nets x) && negb (i_daemonset x) then
-                 let aff := dec_aff (Z.to_nat na) r2 in
-                 let common := fold_left (fun acc q => filter (fun z => existsb (Z.eqb z) (k_zones (q_pn q))) acc)
-                                         (i_reqs x) (match i_reqs x with q :: _ => k_zones (q_pn q) | [] => [] end) in
-                 let prev := if i_fixed_name x then [i_prev_zone x] else [] in
-                 forallb (fun zl => forallb (fun z => existsb (Z.eqb z) common) zl || list_eqb zl prev) aff
-               else true)
+              (let aff := dec_aff (Z.to_nat na) r2 in
+               let prev := if i_fixed_name x then [i_prev_zone x] else [] in
+               let within (zs : list Z) :=
+                 forallb (fun zl => forallb (fun z => existsb (Z.eqb z) zs) zl || list_eqb zl prev) aff in
+               if i_daemonset x then match aff with [] => true | _ => false end
+               else if i_has_nets x then true
+               else match (if i_has_req x then i_reqs x else []) with
+                    | q0 :: _ =>
+                        (* a network request: only zones in which EVERY requested network has a vSwitch *)
+                        within (fold_left (fun acc q => filter (fun z => existsb (Z.eqb z) (k_zones (q_pn q))) acc)
+                                          (i_reqs x) (k_zones (q_pn q0)))
+                    | [] =>
+                        (* a selector match: only zones of the matched network definition *)
+                        match match_one (i_fixed_name x) (i_pns x) with
+                        | Some k => within (k_zones k)
+                        | None => within []
+                        end
+                    end)
           | _ => false
           end
       | _ => true
